@@ -514,6 +514,31 @@ func c09r6(c *Ctx) {
 	for _, st := range storesTo(tf, na) {
 		var ls []ssa.Value
 		phiLeaves(st.Val, map[ssa.Value]bool{}, &ls)
+		// a value computed by a same-package helper: the leaves of what the helper returns
+		for k := 0; k < len(ls) && k < 16; k++ {
+			var call *ssa.Call
+			idx := 0
+			switch x := ls[k].(type) {
+			case *ssa.Call:
+				call = x
+			case *ssa.Extract:
+				if cc, ok := x.Tuple.(*ssa.Call); ok {
+					call, idx = cc, x.Index
+				}
+			}
+			if call == nil {
+				continue
+			}
+			sc := call.Call.StaticCallee()
+			if sc == nil || len(sc.Blocks) == 0 || funcPkgPath(sc) != funcPkgPath(tf) {
+				continue
+			}
+			for _, b := range sc.Blocks {
+				if r, ok := b.Instrs[len(b.Instrs)-1].(*ssa.Return); ok && idx < len(r.Results) {
+					phiLeaves(retVal(r, idx), map[ssa.Value]bool{}, &ls)
+				}
+			}
+		}
 		sawSigner, sawOther := false, false
 		for _, l := range ls {
 			if fieldOfLoad(l) == na {
